@@ -112,3 +112,4 @@ def ast_witnesses():
 
 if os.environ.get('QV_AST_WITNESSES'):
     ast_witnesses()
+w('C06', 'fixed_dim_bound_overflow', 'DIM z(1E+38 * 10)\nDIM y(1 \\ 0)\n')
